@@ -293,6 +293,7 @@ def run(ctx):
 
 # ----------------------------------------------------------------------------------------------------------------------
     check_continuation_tests(ctx)
+    check_singleton_wrappers(ctx)
 
 
 def check_use(ctx, F):
@@ -383,9 +384,6 @@ def check_use(ctx, F):
 # `line.endswith('\\')` is not a line-continuation test: a comment may end with a backslash.  The comment-aware tests of the
 # repository are the regexes of common.py (`re_line_end_cont_or_comment`, ...), fst_core._re_line_end_cont and next_frag / prev_frag.
 R94_REVIEWED = {
-    ('fst_core', '_is_enclosed_or_line'):
-        'only inside the span of a multi-line string / f-string literal, where every line is a continuation anyway (the comment in the '
-        'source says so); the code-level loops of the function use _re_line_end_cont',
     ('slice_stmtlike', 'SrcEdit.get_slice_stmt'):
         'used as a cheap pre-filter only; the same condition then asks prev_frag(..., comment=True) and backs off on a comment (R4.3b keeps '
         'that guard alive)',
@@ -394,7 +392,7 @@ R94_REVIEWED = {
 
 def check_continuation_tests(ctx):
     from ..model import walk_no_nested
-    ctx.rule('R9.4', 'a physical source line is taken for continued only by a comment-aware test, never by a bare endswith(backslash)', 2)
+    ctx.rule('R9.4', 'a physical source line is taken for continued only by a comment-aware test, never by a bare endswith(backslash)', 1)
     counts = {}
     for fi in ctx.repo.all_funcs():
         if isinstance(fi.node, ast.Lambda):
@@ -421,3 +419,67 @@ def check_continuation_tests(ctx):
                           'a source line ending in a backslash is taken for a line continuation, but a comment may end in a backslash too: the '
                           'node is then believed to be one logical line and is left without the parentheses it needs (unparsable result)',
                           c.lineno, sample={'function': fi.key, 'test': norm(c, 60), 'reviewed': rv})
+
+
+# ---- R9.5 ------------------------------------------------------------------------------------------------------------
+# one=True / coerced single element put as a slice: the element is wrapped into a singleton container of the slice kind by the
+# `_code_to_slice_*` functions, which decide about parentheses with *hand-written* kind lists instead of the precedence table.
+
+def check_singleton_wrappers(ctx):
+    from ..model import walk_no_nested
+    from ..struct import parent_map
+    ctx.rule('R9.5', 'hand-written "needs parentheses" kind lists of the singleton slice wrappers cover every child kind the grammar cannot '
+                     'derive unparenthesized in that slot', 3)
+    WRAP_SLOT = {'BoolOp': [('Or', 'values'), ('And', 'values')], 'Compare': [('Compare', 'comparators')],
+                 'Tuple': [('Tuple', 'elts')], 'List': [('List', 'elts')], 'Set': [('Set', 'elts')]}
+    KIND_CLASS = {'Or': 'BoolOp', 'And': 'BoolOp', 'Not': 'Not'}
+    n = 0
+    for fi in ctx.repo.all_funcs():
+        if isinstance(fi.node, ast.Lambda) or fi.module not in ('fst_put_slice', 'code') or not fi.name.startswith('_code_to_slice'):
+            continue
+        fn = fi.node
+        par = parent_map(fn)
+        # wrapper constructions W(..., [ast_] / ast_, ...) whose result is returned as the slice
+        wraps = [c for c in walk_no_nested(fn) if isinstance(c, ast.Call) and isinstance(c.func, ast.Name) and c.func.id in WRAP_SLOT and
+                 any(isinstance(k.value, (ast.List, ast.Name)) and 'ast_' in norm(k.value) for k in c.keywords)]
+        # hand-written decisions: `if <test naming AST classes>: if not fst_.pars().n: fst_._parenthesize_grouping()`
+        decided = set()
+        has_decision = False
+        for c in walk_no_nested(fn):
+            if isinstance(c, ast.Call) and call_name(c) == '_parenthesize_grouping':
+                cur = c
+                while cur in par and par[cur] is not fn:
+                    cur = par[cur]
+                    if isinstance(cur, ast.If):
+                        names = {x.id for x in ast.walk(cur.test) if isinstance(x, ast.Name)}
+                        if names & {'NamedExpr', 'Yield', 'YieldFrom', 'IfExp', 'Lambda', 'BoolOp', 'Compare', 'UnaryOp', 'Not'} or 'is_slice_type' in names:
+                            has_decision = True
+                            decided |= names
+        delegates = any(isinstance(c, ast.Call) and call_name(c) in ('_par_if_needed', 'precedence_require_parens') for c in walk_no_nested(fn))
+        for w in wraps:
+            if delegates or not has_decision:
+                continue
+            wcls = w.func.id
+            mentioned = set(decided)
+            if 'is_slice_type' in mentioned:
+                mentioned.add(wcls)           # `is_slice_type` stands for "the element is itself of the wrapper's class"
+            tuple_handled = any(isinstance(c, ast.Call) and call_name(c) == 'is_parenthesized_tuple' for c in walk_no_nested(fn))
+            for slot in WRAP_SLOT[wcls]:
+                ok_levels = accepts(SLOTS[slot])
+                need = set()
+                for kind, lvl in KIND_LEVEL.items():
+                    if lvl in ok_levels:
+                        continue
+                    if kind == 'Tuple':
+                        if not tuple_handled:
+                            need.add('Tuple')
+                        continue
+                    need.add(KIND_CLASS.get(kind, kind))
+                missing = sorted(k for k in need if k not in mentioned)
+                n += 1
+                ctx.check('R9.5', not missing, fi.module, fi.qualname, f'{wcls} wrapper for slot {slot[0]}.{slot[1]}',
+                          f'a single {", ".join(missing)} put as one element (one=True / coerce) into a {slot[0]} is wrapped without parentheses: the '
+                          f'grammar cannot derive it unparenthesized there, so the operand is regrouped (e.g. `lambda: x or b`) or the source does not parse',
+                          w.lineno, sample={'function': fi.key, 'decided_for': sorted(mentioned & set(KIND_LEVEL) | mentioned & {'BoolOp', 'UnaryOp'})})
+    if n < 3:
+        raise AnalysisError(f'only {n} singleton slice wrappers with hand-written parenthesization found')
